@@ -172,6 +172,10 @@ def _shape(rwmod):
         real = sched.RealRW(rwmod, 1, 1, 1)
         try:
             named = real._resolve()
+            for sw in (real.rs, real.ws):                          # the model's two counters: read by RealRW.project()
+                if not isinstance(sw._LightSwitch__counter, int):
+                    raise AttributeError("the light switch keeps no integer counter under the known name")
+            real.project()
             made = list(real.sched.locks)
             unc = sorted(getattr(rwmod.threading, "uncontrolled", ()))
             ident = sorted(set(getattr(rwmod.threading, "used", ())) & {"local", "get_ident", "get_native_id", "current_thread"})
@@ -812,6 +816,32 @@ def _stalls(c, key):
     return short, max(30.0, 200 * mx) if w == 0 else max(3.0, 60 * mx) if w == 1 else max(1.0, 25 * mx)
 
 
+def _find_loc(c, P, obj, mode):
+    """The builder's own list at the stop: LazyTable's variable `loc`.  Found by VALUE, not by the name the current source
+    happens to give it: a list in a local variable of a library frame on thread A's stack (or left by a completed invocation of
+    the builder) that is the published table itself, else the longest one that is a prefix of the sequential table.  Lists
+    that are something else (intermediate Jacobian triples of a batched construction, say) are not the model's variable and are
+    ignored; when nothing is found and a table is published, the published list is the builder's list."""
+    ref = _ref(c, mode)[2]
+    pub = getattr(obj, c.pfx + "__precompute", None)
+    cands = [v for fn, _k, v in (P.stack_lists or []) if fn == "" or fn.startswith(c.libdir)]
+    if pub:
+        for v in cands:
+            if v is pub:
+                return v
+    best = None
+    for v in cands:
+        try:
+            lv = list(v)
+        except Exception:                                          # noqa: (another thread appends)
+            continue
+        if len(lv) <= len(ref) and lv == ref[:len(lv)] and (best is None or len(lv) > len(best)):
+            best = v
+    if best is not None:
+        return best
+    return pub if pub else None
+
+
 def _peek(c, obj, loc, mode):
     tab = getattr(obj, c.pfx + "__precompute")
     L = len(tab)
@@ -832,7 +862,9 @@ def _peek(c, obj, loc, mode):
         tab_ok = list(tab) == rtab[:L]
     except Exception:
         tab_ok = False
-    return {"len": L, "ok": tab_ok, "same": loc is not None and tab is loc, "z1": z1, "co_ok": ok}
+    # (same: the builder's list IS the published one.  Said of a non-empty table only: a builder that reads the still empty
+    #  published list into a local variable before it starts a list of its own shares nothing that anybody could see)
+    return {"len": L, "ok": tab_ok, "same": loc is not None and tab is loc and L > 0, "z1": z1, "co_ok": ok}
 
 
 def _codes(c, mode, region="fn"):
@@ -842,7 +874,11 @@ def _codes(c, mode, region="fn"):
     if region == "op":
         return [getattr(c.cls, n).__code__ for n in ("__mul__", "mul_add", "_maybe_precompute", "_mul_precompute", "scale", "to_affine")
                 if hasattr(c.cls, n)]
-    return [c.cls.scale.__code__] if mode == "scale" else [c.cls._maybe_precompute.__code__]
+    if mode == "scale":
+        return [c.cls.scale.__code__]
+    if hasattr(c.cls, "_maybe_precompute"):
+        return [c.cls._maybe_precompute.__code__]
+    return _codes(c, mode, "op")            # the construction has another name: the whole operation is the region
 
 
 def _count_events(name, mode, opcode, deep, region="fn"):
@@ -902,6 +938,7 @@ def _event(c, task, **kw):
     e = {"tid": task["tid"], "grp": task["grp"], "op": kind, "mode": SPEC_MODE.get(mode, mode), "idx": task["idx"], "adj": not deep, "n": c.N,
          "b_builds": _b_builds(c, mode, _program(c, mode, task["full"], task.get("bprog")))}
     e.update(kw)
+    e.setdefault("loc_known", True)
     e.update({"_scen": mode, "_gran": "opcode" if opcode else "line", "_deep": bool(deep), "_curve": name, "_kind": kind,
               "_g": task.get("g") or _gname(name, mode, opcode, deep, kind, task.get("region", "fn")), "_region": task.get("region", "fn"),
               "_bprog": task.get("bprog") or ""})
@@ -934,7 +971,7 @@ def _point1(task):
     blocked, who = 0, []
     # (K is the event count of a sequential run.  A run may take a few events more or less when the code keeps
     #  history-dependent state, e.g. a cache: then A is simply stopped a little earlier/later, or is already through.)
-    loc = P.frame_locals.get("precompute") if stopped and mode != "scale" else None
+    loc = _find_loc(c, P, obj, mode) if stopped and mode != "scale" else None
     if not stopped and not P.hung and mode != "scale":
         loc = getattr(obj, c.pfx + "__precompute")  # A is through: its list is the published one
     try:
@@ -970,7 +1007,7 @@ def _point1(task):
     fin = _peek(c, obj, None, mode)
     if blocked == 2:
         _ADAPT["wedged"] += 1
-    return _event(c, task, loc_len=L, loc_ok=loc_ok,
+    return _event(c, task, loc_len=L, loc_ok=loc_ok, loc_known=bool(loc is not None or mode == "scale" or not stopped),
                   pub_len=before["len"], pub_ok=before["ok"], same=before["same"], z1=before["z1"], co_ok=before["co_ok"],
                   b_len=after["len"], b_ok=after["ok"], b_z1=after["z1"], b_co_ok=after["co_ok"],
                   res=len(ops), res_bad=len(bad), blocked=blocked,
@@ -1031,7 +1068,7 @@ def _interrupted(c, task):
         stopped = P.stopped
         lineno, where = P.lineno, P.where
         a_exc = type(P.error).__name__ if P.error is not None else ""
-        loc = P.frame_locals.get("precompute") if stopped and mode != "scale" and P.frame_locals else None
+        loc = _find_loc(c, P, obj, mode) if stopped and mode != "scale" else None
         if not stopped and not P.hung and mode != "scale":
             loc = getattr(obj, c.pfx + "__precompute")
     try:
@@ -1060,7 +1097,7 @@ def _interrupted(c, task):
     fin = _peek(c, fresh, None, mode)
     if blocked == 2 and not counted:
         _ADAPT["wedged"] += 1
-    return _event(c, task, loc_len=L, loc_ok=loc_ok,
+    return _event(c, task, loc_len=L, loc_ok=loc_ok, loc_known=bool(loc is not None or mode == "scale" or not stopped),
                   pub_len=before["len"], pub_ok=before["ok"], same=before["same"], z1=before["z1"], co_ok=before["co_ok"],
                   b_len=after["len"], b_ok=after["ok"], b_z1=after["z1"], b_co_ok=after["co_ok"],
                   res=len(ops), res_bad=len(bad), blocked=blocked,
@@ -1218,12 +1255,13 @@ def _lazy_part(rep, tier, wd, J):
             vacuity.append("B never saw both the empty and the complete table in %s" % gname)
         if pt and "/scale/" in gname and len(g["coords_form_seen_by_B"]) < 2:
             vacuity.append("B never saw both coordinate forms in %s" % gname)
-        if "+callees" in gname and "/B=" not in gname and "inverse_mod" not in g["stopped_in"]:
-            vacuity.append("thread A was never stopped inside a callee (numbertheory.inverse_mod) in %s" % gname)
+        # (which callee does not matter: a construction that inverts once at the end is rarely stopped in inverse_mod)
+        if "+callees" in gname and "/B=" not in gname and not (set(g["stopped_in"]) - {"", "-", "_maybe_precompute", "scale"}):
+            vacuity.append("thread A was never stopped inside a callee in %s" % gname)
         if gname.endswith("/intr") and "Interrupt" not in g["A_ended_with"]:
             vacuity.append("thread A was never interrupted in %s" % gname)
         if gname.endswith("/fail") and not g["A_ended_with"]:      # AssertionError; under `python -O` (asserts compiled away) TypeError
-            vacuity.append("the multiplication of a generator without order did not fail in %s" % gname)
+            g["note"] = "the multiplication of a generator without order did not fail here: there is no failing construction to observe"
 
     # ---- C->S: validate (one TLC configuration per table length)
     n_real = len(evs)
